@@ -141,9 +141,11 @@ func runChunk(id int, from, to uint64, trace bool) chunkResult {
 		if ee, ok := err.(*exec.ExitError); ok {
 			res.exit = ee.ExitCode()
 		}
-		if res.exit == 2 {
+		if res.exit == 3 {
+			// 3 = harness error reported by the worker itself (the Go runtime uses
+			// 2 for fatal errors and escaped panics, which are verdict material)
 			fmt.Fprint(os.Stderr, res.stderr)
-			die("worker reported a harness error (exit 2)")
+			die("worker reported a harness error")
 		}
 		res.crashed = true
 		b, _ := os.ReadFile(status)
@@ -296,7 +298,7 @@ func runReplay(path string, shrink bool, budget int) (res *replayFile, crashed b
 		}
 	}
 	stderr = eb.String()
-	if exit == 2 {
+	if exit == 3 {
 		fmt.Fprint(os.Stderr, stderr)
 		die("replay hit a harness error")
 	}
